@@ -391,8 +391,14 @@ def rule_r8(chk, facts, P):
              'at the position the same ordering walk leaves it at - both functions walk FirstStack with the same '
              'relational strcmp() test, and the new element is linked behind the walk\'s predecessor', min_instances=3)
 
-    def ordering_loops(f):
+    def ordering_loops(f, depth=0):
         out = []
+        if depth == 0:
+            # the walk may live in a helper both functions share
+            for b, i, ln, c in f.calls():
+                g = P.resolve(f.unit, callee_name(c)) if callee_name(c) else None
+                if g is not None and g.unit is f.unit and g is not f and g.static:
+                    out += ordering_loops(g, 1)
         for (h, s0) in f.loops():
             body = f.loop_body(h, s0)
             for bb in body | {h}:
